@@ -942,7 +942,7 @@ pub fn run(cfg: &Cfg, rep: &mut Report) {
     rep.require("corner:len>=2:distinct", 1);
     if !cfg.lite {
         rep.require("corner:len>=2:distinct", 60);
-        rep.require("cover:corner:draws>=2^18", 30);
+        rep.require("cover:corner:draws>=2^18", 20); // 31..41 observed over 40 seeds (the random jobs vary)
         rep.require("cover:bootstrap:rows:identical-pairs-decidable", 60);
         for r in 0..16 {
             rep.require(&format!("cover:corner:n_bootstrap mod 16 = {}", r), 2);
